@@ -9872,7 +9872,8 @@ func CreateCooperativeCloseTx(fundingTxIn wire.TxIn,
 
 // LocalBalanceDust returns true if when creating a co-op close transaction,
 // the balance of the local party will be dust after accounting for any anchor
-// outputs.
+// outputs and the commitment fee handed back to the initiator. The closing fee
+// isn't known at this point, so it isn't taken into account.
 func (lc *LightningChannel) LocalBalanceDust() (bool, btcutil.Amount) {
 	lc.RLock()
 	defer lc.RUnlock()
@@ -9880,21 +9881,28 @@ func (lc *LightningChannel) LocalBalanceDust() (bool, btcutil.Amount) {
 	chanState := lc.channelState
 	localBalance := chanState.LocalCommitment.LocalBalance.ToSatoshis()
 
-	// If this is an anchor channel, and we're the initiator, then we'll
-	// regain the stats allocated to the anchor outputs with the co-op
-	// close transaction.
-	if chanState.ChanType.HasAnchors() && chanState.IsInitiator {
-		localBalance += 2 * AnchorSize
+	// If we're the initiator, then we'll regain the commitment fee with
+	// the co-op close transaction, just as CoopCloseBalance computes it.
+	// If this is an anchor channel, we'll regain the sats allocated to the
+	// anchor outputs as well.
+	if chanState.IsInitiator {
+		localBalance += chanState.LocalCommitment.CommitFee
+		if chanState.ChanType.HasAnchors() {
+			localBalance += 2 * AnchorSize
+		}
 	}
 
 	localDust := chanState.LocalChanCfg.DustLimit
 
-	return localBalance <= localDust, localDust
+	// CreateCooperativeCloseTx keeps an output that is exactly at the dust
+	// limit, so only a balance below it counts as dust.
+	return localBalance < localDust, localDust
 }
 
 // RemoteBalanceDust returns true if when creating a co-op close transaction,
 // the balance of the remote party will be dust after accounting for any anchor
-// outputs.
+// outputs and the commitment fee handed back to the initiator. The closing fee
+// isn't known at this point, so it isn't taken into account.
 func (lc *LightningChannel) RemoteBalanceDust() (bool, btcutil.Amount) {
 	lc.RLock()
 	defer lc.RUnlock()
@@ -9902,16 +9910,22 @@ func (lc *LightningChannel) RemoteBalanceDust() (bool, btcutil.Amount) {
 	chanState := lc.channelState
 	remoteBalance := chanState.RemoteCommitment.RemoteBalance.ToSatoshis()
 
-	// If this is an anchor channel, and they're the initiator, then we'll
-	// regain the stats allocated to the anchor outputs with the co-op
-	// close transaction.
-	if chanState.ChanType.HasAnchors() && !chanState.IsInitiator {
-		remoteBalance += 2 * AnchorSize
+	// If they're the initiator, then they'll regain the commitment fee
+	// with the co-op close transaction, just as CoopCloseBalance computes
+	// it. If this is an anchor channel, they'll regain the sats allocated
+	// to the anchor outputs as well.
+	if !chanState.IsInitiator {
+		remoteBalance += chanState.RemoteCommitment.CommitFee
+		if chanState.ChanType.HasAnchors() {
+			remoteBalance += 2 * AnchorSize
+		}
 	}
 
 	remoteDust := chanState.RemoteChanCfg.DustLimit
 
-	return remoteBalance <= remoteDust, remoteDust
+	// CreateCooperativeCloseTx keeps an output that is exactly at the dust
+	// limit, so only a balance below it counts as dust.
+	return remoteBalance < remoteDust, remoteDust
 }
 
 // CommitBalances returns the local and remote balances in the current
